@@ -976,6 +976,7 @@ class FnDirective:
         self.fn_begin = []    # lines inserted right after the opening brace of the function body
         self.ghost_params = []  # ghost (erased) parameters appended to the parameter list (rule R10)
         self.closures_opaque = set()  # closures the contract deliberately leaves without specification (their result is not constrained)
+        self.raw = []         # every contract line of the block (spec and body insertions): the obligations named there are undecided when the body becomes a stub
 
 
 def parse_opts(rest):
@@ -1050,7 +1051,8 @@ def _apply_fn_full(d, log, fnmap, out_lineno, stub_only=False):
         first_line = src.count('\n', 0, it.sig_start) + 1
         fnmap.append({'label': label, 'fn': name, 'source': file, 'source_line': first_line,
                       'gen_first': out_lineno, 'gen_last': out_lineno + nlines - 1, 'body_first': out_lineno + nlines - 1,
-                      'spec': d.spec, 'new_calls': [], 'isolated': stub_only, 'gen_fn': d.opts.get('rename', name)})
+                      'spec': d.spec, 'new_calls': [], 'isolated': stub_only, 'gen_fn': d.opts.get('rename', name),
+                      'obls': sorted(set(re.findall(r'//\s*OBL\s+(\S+)', '\n'.join(d.raw))))})
         return text
     new_calls = []
     if d.calls is not None:
@@ -1173,7 +1175,8 @@ def _apply_fn_full(d, log, fnmap, out_lineno, stub_only=False):
     fnmap.append({'label': label, 'fn': name, 'source': file, 'source_line': first_line,
                   'gen_first': out_lineno, 'gen_last': out_lineno + nlines - 1,
                   'body_first': out_lineno + text.count('\n', 0, body_off),
-                  'spec': d.spec, 'new_calls': new_calls})
+                  'spec': d.spec, 'new_calls': new_calls,
+                  'obls': sorted(set(re.findall(r'//\s*OBL\s+(\S+)', '\n'.join(d.raw))))})
     log.taken.append({'item': d.spec, 'kind': 'fn', 'source_line': first_line, 'bytes': it.end - it.sig_start})
     return text
 
@@ -1506,6 +1509,7 @@ def expand(template_path, out_path, extra_tail=''):
                             raise SystemExit('text outside a section in fn block: ' + s2)
                     else:
                         cur.append(lines[i])
+                        d.raw.append(lines[i])
                 i += 1
             out.append(apply_fn(d, log, fnmap, cur_line()))
             continue
